@@ -1359,6 +1359,37 @@ impl World {
                 }
                 None => self.violation(format!("c10:pinned-vanished:{:?}", k.0), format!("after `{what}`: {k:?} disappeared")),
             }
+            // "References obtained with Handle::get therefore stay valid and constant": for the types that
+            // declare themselves NotHotReloaded the lock-free accessor must work and agree with read();
+            // and nothing that is never rewritten may ever report a reload
+            if k.0 == Ty::LS && self.hot {
+                let c = self.cache();
+                if let Some(h) = c.get_cached::<LS>(&k.1) {
+                    let got = std::panic::catch_unwind(std::panic::AssertUnwindSafe(|| h.get().v.to_string()));
+                    let flags = (h.reloaded_global() || h.as_untyped().reloaded_global(), h.reload_watcher().reloaded() || h.as_untyped().reload_watcher().reloaded());
+                    match got {
+                        Ok(g) if g == val => {}
+                        Ok(g) => self.violation("c10:get-differs".to_string(), format!("after `{what}`: Handle::get of {k:?} gives {g}, stored {val}")),
+                        Err(_) => self.violation("c10:get-panicked".to_string(), format!("after `{what}`: Handle::get of {k:?} (a NotHotReloaded type in a cache with a reloader) panicked")),
+                    }
+                    if flags != (false, false) {
+                        self.violation("c10:static-entry-reports-reload".to_string(), format!("after `{what}`: {k:?} is never rewritten, yet reloaded_global / a fresh watcher answered {flags:?}"));
+                    }
+                }
+            }
+            if k.0 == Ty::V || k.0 == Ty::L {
+                // a value stored with get_or_insert: never rewritten, so never reported as reloaded
+                let c = self.cache();
+                let flags = match k.0 {
+                    Ty::V => c.get_cached::<V>(&k.1).map(|h| (h.reloaded_global() || h.as_untyped().reloaded_global(), h.reload_watcher().reloaded() || h.as_untyped().reload_watcher().reloaded())),
+                    _ => c.get_cached::<L>(&k.1).map(|h| (h.reloaded_global() || h.as_untyped().reloaded_global(), h.reload_watcher().reloaded() || h.as_untyped().reload_watcher().reloaded())),
+                };
+                if let Some(f) = flags {
+                    if f != (false, false) {
+                        self.violation("c10:static-entry-reports-reload".to_string(), format!("after `{what}`: {k:?} is never rewritten, yet reloaded_global / a fresh watcher answered {f:?}"));
+                    }
+                }
+            }
         }
     }
 
